@@ -122,7 +122,7 @@ fn block_in(p: Prim, s: &Shared, who: &AtomicU32, rx1: Option<&mpsc::Receiver<u3
             }
         }
         Prim::SpscRecv => {
-            let rx = s.rx3.lock().unwrap().take().unwrap();
+            let rx = s.rx3.lock().unwrap_or_else(|e| e.into_inner()).take().unwrap();
             if rx.recv().is_ok() {
                 who.fetch_add(1, Ordering::SeqCst);
             }
